@@ -820,7 +820,8 @@ func ruleCowMapReadOnly(c *Ctx, rule string, pkgs ...string) {
 		}
 	}
 	c.CallSites(n)
-	c.Floor(rule, 1)
+	// no floor: the sites exist only as long as the code asks for the published map; the seeded control pair
+	// shows on every run that the rule still sees such a site
 }
 
 // ruleChildNotDropped: a child of a node (a field holding a node) is never overwritten with nil.  What Accept does
